@@ -372,7 +372,7 @@ def run(ctx):
     # ---------------- V3: salt replay (server stream) -------------------------------------------
     ctx.floor("V3", "replay-cache accessors (lookup / record under the mutex)", 2, len(lookup_fns) + len(record_fns))
     stream_decs = [b for b in decs if any(is_lookup(c) or is_record(c) for (_, c, _) in b.calls()) or "::tcp::" in b.defp]
-    chk = [b for b in decs if any(is_lookup(c) for (_, c, _) in b.calls())]
+    chk = [b for b in decs if any(is_lookup(c) or (is_record(c) and prog.body(c.target).local_ty(0) == "bool") for (_, c, _) in b.calls())]
     ctx.floor("V3", "stream header decoders that look the salt up", 1, len(chk))
     for body in stream_decs:
         acc = accept_blocks_of(body)
@@ -381,6 +381,12 @@ def run(ctx):
             o_ = getattr(body, "origin", None)
             return bool(o_) and prog.body(o_[blk_]) is not None and prog.body(o_[blk_]).root in record_fns
         cn = [(blk, c, t) for (blk, c, t) in body.calls() if is_lookup(c) and not _inside_record(blk)]
+        # a test-and-set (a record function that answers `was it new?`) made before any open is this decoder's lookup step as well
+        tas = [(blk, c, t) for (blk, c, t) in body.calls() if is_record(c) and prog.body(c.target).local_ty(0) == "bool"]
+        if not cn:
+            cn = [x for x in tas if not any(body.dominates(ob_, x[0]) and ob_ != x[0] for (ob_, _, _) in
+                                            [(b2, c2, t2) for (b2, c2, t2) in body.calls() if c2.name == "Authenticator::open" or c2.method in ("decrypt_in_place", "new_decoder_with_eih")])]
+        tas_blocks = {x[0] for x in tas}
         sn = [(blk, c, t) for (blk, c, t) in body.calls() if is_record(c)]
         opens = [(blk, c, t) for (blk, c, t) in body.calls() if c.name == "Authenticator::open" or c.method in ("decrypt_in_place", "new_decoder_with_eih")]
         if not cn:
@@ -391,8 +397,8 @@ def run(ctx):
             ok_dom = False
             ok_rej = False
             for g in gates:
-                miss_t = g.bool_target(False)
-                hit_t = g.bool_target(True)
+                miss_t = g.bool_target(blk in tas_blocks)       # lookup: true = seen before; test-and-set: true = was new
+                hit_t = g.bool_target(blk not in tas_blocks)
                 if acc and all(edge_dom(prog, body, g.block, miss_t, ab) for ab in acc):
                     ok_dom = True
                 if err_only(prog, body, hit_t):
@@ -405,6 +411,13 @@ def run(ctx):
         if not sn:
             ctx.ob("V3", body.defp, "salt-recorded", loc(body.sp), False, "accepted salt is never recorded")
         for (blk, c, t) in sn:
+            # the replay cache is bounded (an LRU with a capacity): an entry made for bytes that nobody has authenticated lets anyone
+            # without the key push recorded salts out (each garbage connection costs one entry), after which a captured request is accepted again
+            auth_first = any(succ_dom(prog, body, ob_, blk)[0] for (ob_, _, _) in opens if ob_ != blk)
+            ctx.ob("V3", body.defp, "salt-recorded-only-after-authentication", loc(t["sp"]), auth_first,
+                   "the salt enters the replay cache only behind a successful AEAD open of the header" if auth_first else
+                   f"`{c.name}` puts the salt into the (bounded, evict-on-insert) replay cache on a path where no AEAD open of this request has succeeded yet: unauthenticated "
+                   "connections fill the cache and evict the salts of accepted requests, which can then be replayed inside their timestamp window")
             for ab in acc:
                 ok = body.dominates(blk, ab)
                 ctx.ob("V3", body.defp, "salt-recorded-before-accept", loc(t["sp"]), ok, "set_nonce dominates the accepting return" if ok else "accepting return reachable without recording the salt")
